@@ -7,6 +7,7 @@ error hook are counted.  Model side: Model/Outgoing.v + Spec/OutgoingSpec.v via 
 """
 import asyncio, itertools, json, logging, os, threading
 import core
+import priv
 
 logging.disable(logging.CRITICAL)
 
@@ -248,8 +249,8 @@ def method_params(mi):
 
 
 def table_keys(protocol):
-    """The one place that looks at pygls' bookkeeping."""
-    return list(protocol._request_futures.keys()), list(protocol._result_types.keys())
+    """The one place that looks at pygls' bookkeeping (the two tables are located by harness/priv.py)."""
+    return list(priv.request_futures(protocol).keys()), list(priv.result_types(protocol).keys())
 
 
 class Endpoint:
@@ -260,6 +261,7 @@ class Endpoint:
         self.loop = loop
         self.server = LanguageServer("c05", "v1")
         self.protocol = self.server.protocol
+        self.error_handler = priv.error_handler(self.server)    # what the real call sites hand to the read loops
         self.writer = _Writer()
         self.protocol.set_writer(self.writer, include_headers=False)
         self.hooks = 0
@@ -291,7 +293,7 @@ class Endpoint:
             message = json.loads(body, object_hook=self.protocol.structure_message)
             self.protocol.handle_message(message)
         except Exception as exc:
-            self.server._report_server_error(exc, JsonRpcException)
+            self.error_handler(exc, JsonRpcException)
 
     def close(self):
         try:
@@ -418,7 +420,7 @@ async def _run_script(case, loop):
     if mode == "a":
         from pygls.io_ import run_async
         sreader = asyncio.StreamReader()
-        stask = loop.create_task(run_async(stop_event, sreader, ep.protocol, None, ep.server._report_server_error))
+        stask = loop.create_task(run_async(stop_event, sreader, ep.protocol, None, ep.error_handler))
 
         def deliver(obj):
             nfed[0] += 1
@@ -427,7 +429,7 @@ async def _run_script(case, loop):
         from pygls.io_ import run as run_sync
         pipe = _Pipe()
         sthread = threading.Thread(target=run_sync, args=(stop_event, pipe, ep.protocol, None,
-                                                          ep.server._report_server_error), daemon=True)
+                                                          ep.error_handler), daemon=True)
         sthread.start()
 
         def deliver(obj):
@@ -733,7 +735,9 @@ class C05(core.Property):
                     "harness/c05.py (script generator, driver of the real protocol, canonicalisation)",
                     "modelled not verified: dict get/set/pop, concurrent.futures.Future state machine, "
                     "uuid4 as an injective fresh-id supply, cattrs structure() as an oracle (which class, "
-                    "whether it fails)"]
+                    "whether it fails)",
+                    priv.trusted(["protocol.request_futures", "protocol.result_types", "server.error_handler"])]
+    private = ["protocol.request_futures", "protocol.result_types", "server.error_handler"]
     assumptions = ["outgoing ids are never reused (uuid4 supply / caller-given msg_id distinct)",
                    "disjoint_directions: the peer's request ids and cancelled ids are none of pygls' outstanding ids",
                    "result payloads validate against the requested method's result type",
